@@ -20,6 +20,9 @@ ASSUMPTIONS = [
     "undefined or numerically fragile arithmetic (x/0, 0^-k, negative^fraction, LOG<=0, SQRT<0, SIGN(0), pointwise f(NaN), MEDIAN with NaN, "
     "aggregate of all-NaN, |v|>1e100, cancellation/comparison of inexact nearly-equal operands) is not judged",
     "exact equality is demanded when every operation in the tree is exact on dyadic data, 1e-9 relative otherwise",
+    "feature values: {-2..3} and NaN; two fifths of the vectors also hold (in half of their elements) magnitudes far from 1 (vt.exprs.WIDE: 2^-60, -2^-70, 1e-17, -2.5e-16, "
+    "5.6e-17, 1e-40, 2^40, -1e12): ordinary arithmetic treats a tiny non-zero number like any other (only an exact 0 is a zero divisor); "
+    "such values are judged with the relative tolerance, and not at all where a result leaves 1e-100..1e100",
     "external scalar variables (documented form operate('A=A/factor', {'factor': var})): names k, w, factor (disjoint from feature and "
     "function names) stand where a literal may; values are Python ints / floats from vt.exprs.EXT_VALUES; every evaluation is judged against "
     "the values passed to THAT call (the same text is evaluated again with other values, on the same and on a fresh track)",
@@ -28,12 +31,58 @@ ASSUMPTIONS = [
     "'>>' '<<' forms are not in the stated language and are not judged",
     "an omitted output name of a void operator means the first input feature (docstring of Track.operate); issued only when that input is a "
     "real feature (a, b), not a virtual one",
+    "the coordinate class of the track is a case field (ENUCoords / GeoCoords / ECEFCoords; the exhaustive enumeration uses one class per "
+    "fixed vector set): x, y, z are the three stored components of the class, whatever it is (no geodesy involved); after 'x=<expr>' the "
+    "value is read back through Track.getX(), Obs.position.getX() and the virtual feature 'x' (same for y, z), the other two components, "
+    "the class of the positions, features and timestamps must be as before; coordinate values come from {-2..3}; an assignment to a "
+    "coordinate of a GeoCoords track is judged only when every value is finite with |lon| <= 180, |lat| <= 90",
     "cases of one process share tracklib's class-level state on purpose; a violation is re-run after that state is put back to its "
     "import-time content: still failing = self-contained witness (plain key), else key + ':after-earlier-cases'",
 ]
 
 T0 = gen.ms_of_fields(2021, 3, 4, 5, 6, 7)
 NAMES = ["a", "b", "x", "y", "z", "t", "idx"]
+# coordinate class of the track: x, y, z are the three stored components of whichever class the positions have
+# (ENUCoords E/N/U, GeoCoords lon/lat/hgt, ECEFCoords X/Y/Z), read and written through getX/getY/getZ, setX/setY/setZ
+COORDS = ["ENU", "GEO", "ECEF"]
+
+
+def coord_class(name):
+    from tracklib.core.obs_coords import ECEFCoords, ENUCoords, GeoCoords
+    return {"ENU": ENUCoords, "GEO": GeoCoords, "ECEF": ECEFCoords}[name]
+
+
+def make_track(pts, times_ms, coords="ENU"):
+    """track of the given coordinate class from pts = [(x, y, z)] (the three stored components) and epoch ms"""
+    if coords == "ENU":
+        return gen.make_track(pts, times_ms)
+    from tracklib.core.obs import Obs
+    from tracklib.core.track import Track
+    cls = coord_class(coords)
+    tr = Track([], 1)
+    for p, t in zip(pts, times_ms):
+        tr.addObs(Obs(cls(p[0], p[1], p[2]), gen.obstime_of_ms(t)))
+    return tr
+
+
+def coord_valid(coords, c, vec):
+    """may the values vec be stored as component c ('x' | 'y' | 'z') of a position of this class?  Geographic
+    coordinates are finite with lon in [-180, 180], lat in [-90, 90]; the other classes hold any number"""
+    if coords != "GEO":
+        return True
+    lim = {"x": 180.0, "y": 90.0}.get(c)
+    return all(v == v and abs(v) != float("inf") and (lim is None or abs(v) <= lim) for v in vec)
+
+
+GETTERS = {"x": "getX", "y": "getY", "z": "getZ"}
+
+
+def coord_views(tr, c):
+    """the three public readings of component c: [(label, values)]"""
+    g = GETTERS[c]
+    return [("track.%s()" % g, list(getattr(tr, g)())),
+            ("position.%s()" % g, [getattr(tr.getObs(i).position, g)() for i in range(tr.size())]),
+            ("feature %r" % c, list(tr.getAnalyticalFeature(c)))]
 
 
 # --- witnesses that do not depend on earlier cases -----------------------------------------------------
@@ -111,7 +160,7 @@ def self_contained(body):
 # ----------------------------------------------------------------------------------------------
 def build(case):
     n = case["n"]
-    tr = gen.make_track([tuple(p) for p in case["xyz"]], [T0 + 1000 * i for i in range(n)])
+    tr = make_track([tuple(p) for p in case["xyz"]], [T0 + 1000 * i for i in range(n)], case.get("coords", "ENU"))
     for name in ("a", "b"):
         if case.get(name) is not None:
             tr.createAnalyticalFeature(name, list(case[name]))
@@ -149,6 +198,8 @@ def snapshot(tr):
     names = list(tr.getListAnalyticalFeatures())
     return {"names": names, "feat": {k: list(tr.getAnalyticalFeature(k)) for k in names},
             "x": tr.getX(), "y": tr.getY(), "z": tr.getZ(),
+            "views": {c: coord_views(tr, c) for c in "xyz"},
+            "pos": [type(tr.getObs(i).position).__name__ for i in range(tr.size())],
             "t": [gen.ms_of_obstime(tr.getObs(i).timestamp) for i in range(tr.size())],
             "nfeat": [len(tr.getObs(i).features) for i in range(tr.size())]}
 
@@ -177,8 +228,13 @@ def compare_effects(before, after, changed_feature=None, changed_coord=None, new
         if k != changed_feature and not vec_same(before["feat"][k], after["feat"][k]):
             raise Violation("other-feature-changed", "%r changed feature %s: %s -> %s" % (s, k, before["feat"][k], after["feat"][k]))
     for c in "xyz":
-        if c != changed_coord and not vec_same(before[c], after[c]):
-            raise Violation("coordinate-changed", "%r changed %s: %s -> %s" % (s, c, before[c], after[c]))
+        if c == changed_coord:
+            continue
+        for (label, u), (_, v) in zip(before["views"][c], after["views"][c]):
+            if not vec_same(u, v):
+                raise Violation("coordinate-changed", "%r changed %s (%s): %s -> %s" % (s, c, label, u, v))
+    if before["pos"] != after["pos"]:
+        raise Violation("coordinate-class-changed", "%r changed the class of the positions: %s -> %s" % (s, before["pos"], after["pos"]))
     if before["t"] != after["t"]:
         raise Violation("timestamp-changed", "%r changed timestamps" % s)
 
@@ -216,6 +272,26 @@ def classes_of(tree, ref):
     return cls
 
 
+def magnitude_classes(case, tree):
+    """labels for feature vectors that hold values of magnitudes far from 1 (vt.exprs.WIDE)"""
+    used = exprs.features(tree)["names"]
+    wide = [k for k in ("a", "b") if k in used and any(v == v and v != 0 and not (0.25 <= abs(v) <= 8) for v in case.get(k) or [])]
+    if not wide:
+        return []
+    out = ["wide-magnitude"]
+
+    def divisors(t):
+        if t[0] == "b":
+            if t[1] == "/" and exprs.features(t[3])["names"] & set(wide):
+                out.append("wide-magnitude-in-divisor")
+            divisors(t[2])
+            divisors(t[3])
+        elif t[0] in "uf":
+            divisors(t[-1])
+    divisors(tree)
+    return sorted(set(out))
+
+
 # --- evaluation without '=' ---------------------------------------------------------------------
 @self_contained
 def body_eval(case):
@@ -236,7 +312,7 @@ def body_eval(case):
         compare_effects(before, snapshot(tr), s=s)
         judged += 1
         if info is None:
-            info = {"nt": exprs.nontrivial(tree), "cls": classes_of(tree, ref)}
+            info = {"nt": exprs.nontrivial(tree), "cls": classes_of(tree, ref) + ["coords-" + case.get("coords", "ENU")] + magnitude_classes(case, tree)}
         used = sorted((k, float(v)) for k, v in (ext or {}).items() if k in exprs.features(tree)["externals"])
         if last is not None and used != last:
             info["cls"].append("ext-repeat-other-value" + ("-fresh-track" if fresh else "-same-track"))
@@ -261,6 +337,7 @@ def strat_eval(draw, max_depth=6):
     b = draw(exprs.vectors(n))
     xyz = draw(st.lists(st.tuples(*[st.sampled_from(exprs.VALUES)] * 3).map(list), min_size=n, max_size=n))
     c = _vec_case(tree, s, n, a, b, xyz)
+    c["coords"] = draw(st.sampled_from(COORDS))
     used = exprs.externals_of(tree)
     if used or with_ext:
         # the dictionary of the call: the externals of the text, sometimes one more that the text does not use
@@ -300,7 +377,9 @@ def enum_trees(tier):
     for tree in out:
         s = exprs.render(tree)
         for k, (n, a, b) in enumerate(FIXED):
-            yield _vec_case(tree, s, n, a, b, [[float(i), 1.0, 0.5] for i in range(n)])
+            c = _vec_case(tree, s, n, a, b, [[float(i), 1.0, 0.5] for i in range(n)])
+            c["coords"] = COORDS[k]          # one coordinate class per fixed vector set
+            yield c
 
 
 # --- with '=' ---------------------------------------------------------------------------------------
@@ -324,30 +403,38 @@ def strat_assign(draw):
 def body_assign(case):
     tree, lhs = case["tree"], case["lhs"]
     s = lhs + case.get("sp", "") + "=" + case.get("sp", "") + case["s"]
+    coords = case.get("coords", "ENU")
     info = None
     for j, (ext, _) in enumerate(ext_rounds(case)):       # every round on a fresh track (histories are C01's subject)
         try:
             ref = exprs.evaluate(tree, env_of(case, ext), case["n"])
         except exprs.Undef:
             continue
+        coord = lhs if lhs in "xyz" else None
+        feat = None if coord else lhs
+        if coord and not coord_valid(coords, coord, ref.vec):
+            continue                 # the value is not a number the coordinate class can hold: nothing is demanded
         tr = build(case)
         before = snapshot(tr)
         operate_expr(tr, s, ext)
         after = snapshot(tr)
-        coord = lhs if lhs in "xyz" else None
-        feat = None if coord else lhs
         compare_effects(before, after, changed_feature=feat, changed_coord=coord, s=s)
-        got = after[coord] if coord else after["feat"][lhs]
-        for i, (g, w) in enumerate(zip(got, ref.vec)):
-            ok = same(g, w) if ref.exact else close(g, w, rel=1e-9, abs_=1e-9)
-            if not ok:
-                raise Violation("assign-not-stored", "%r%s: %s reads %s, expression value is %s" % (
-                    s, " with %s" % (ext,) if ext else "", lhs, got, ref.vec))
+        # a coordinate is read back through every public reading (track.getX(), position.getX(), feature 'x')
+        for label, got in (after["views"][coord] if coord else [("feature %r" % lhs, after["feat"][lhs])]):
+            if len(got) != len(ref.vec):
+                raise Violation("wrong-length", "%r: %s has %d values for %d observations" % (s, label, len(got), len(ref.vec)))
+            for i, (g, w) in enumerate(zip(got, ref.vec)):
+                ok = same(g, w) if ref.exact else close(g, w, rel=1e-9, abs_=1e-9)
+                if not ok:
+                    raise Violation("assign-not-stored", "%r%s on %s positions: %s reads %s, expression value is %s" % (
+                        s, " with %s" % (ext,) if ext else "", coords, label, got, ref.vec))
         if info is None:
             kind = "coord" if coord else ("overwrite" if lhs in before["names"] else "create")
             f = exprs.features(tree)
             rhs = "literal-rhs" if not f["names"] else ("name-rhs" if tree[0] == "n" else "expr-rhs")
-            info = {"nt": True, "cls": [kind, rhs] + (["ext"] if f["externals"] else [])}
+            info = {"nt": True, "cls": [kind, rhs, "coords-" + coords, kind + "-" + coords] + (["ext"] if f["externals"] else [])}
+            if coord:
+                info["cls"].append("coord-%s-%s" % (rhs, coords))
         elif "ext-repeat" not in info["cls"]:
             info["cls"].append("ext-repeat")
     return info if info is not None else {"undef": True}
@@ -406,6 +493,7 @@ def strat_operator(draw):
     c = _vec_case(tree, exprs.render(tree), n, a, b, xyz)
     c.update(extra)
     c["kind"] = kind
+    c["coords"] = draw(st.sampled_from(COORDS))
     # output: a new name, an existing feature (possibly the input itself), or omitted (= first input, documented)
     c["dst"] = draw(st.sampled_from(["out", "a", "b", None]))
     return c
@@ -432,7 +520,7 @@ def body_operator(case):
             ref = exprs.evaluate(tree, env, case["n"])
     except exprs.Undef:
         return {"undef": True}
-    cls = [kind, "exact" if ref.exact else "inexact"]
+    cls = [kind, "exact" if ref.exact else "inexact", "coords-" + case.get("coords", "ENU")] + magnitude_classes(case, case["tree"])
     inp = first_input(case)
     omitted = False
     if kind != "nv":
@@ -478,9 +566,10 @@ def body_operator(case):
 
 RULE = ("exhaustive: every tree of depth <= 2 (quick, + every 31st depth-3 tree) / depth <= 3 (thorough) over leaves {a,b,idx,2} and "
         "+ - * / ^ < >, on 3 fixed vector sets; random: Hypothesis recursive trees (depth <= 6, functions, unary minus, styles) on vectors from "
-        "{-2..3, NaN}, a third of them with external scalar variables (k, w, factor) as leaves, the call handing their values over in a dictionary "
+        "{-2..3, NaN} (two fifths of the vectors mixed with magnitudes 2^-70..1e12), a third of them with external scalar variables (k, w, factor) as leaves, the call handing their values over in a dictionary "
         "(sometimes with an unused entry) and the same text evaluated up to 2 more times with other values on the same or a fresh track; "
-        "assign: the same with '=' and lhs in {new, existing, x, y, z} (repeated rounds on fresh tracks); operators: one-operator trees through "
+        "assign: the same with '=' and lhs in {new, existing, x, y, z} (repeated rounds on fresh tracks); every sub-check draws the "
+        "coordinate class of the positions from {ENU, GEO, ECEF}; operators: one-operator trees through "
         "Operator objects, plus the 8 shift operator objects (k in -6..6), with the output a new name, an existing feature, the input itself, "
         "or omitted (= first input). "
         "Non-trivial: reference fully defined and (>= 2 operators of different precedence, or a same-precedence non-commutative chain, "
